@@ -96,6 +96,11 @@ def sym_rodded(env, n_ring, n_duct, wwdir='clockwise', stagnant=False, conv_appr
     d['wall'] = _arr(env, [env.pos('%sd_wall%d' % (t, i), hi=1, actual=b.d['wall'][i]) for i in range(n_duct)])
     d['wcorner'] = _arr2(env, [[env.pos('%swcorner%d_%d' % (t, i, k), hi=1, actual=b.d['wcorner'][i, k]) for k in range(2)]
                                for i in range(n_duct)])
+    # GEOM (C08): corner wall lengths grow outward
+    for i in range(n_duct):
+        env.assume(d['wcorner'][i][1] > d['wcorner'][i][0])
+        if i:
+            env.assume(d['wcorner'][i][0] > d['wcorner'][i - 1][1])
     if nbyp:
         d['bypass'] = _arr(env, [env.pos('%sd_bypass%d' % (t, i), hi=1, actual=b.d['bypass'][i]) for i in range(nbyp)])
         L[5][5] = [P for _ in range(nbyp)]
@@ -138,26 +143,26 @@ def sym_rodded(env, n_ring, n_duct, wwdir='clockwise', stagnant=False, conv_appr
     r._setup_ht_constants()
     # ---- materials and correlated parameters
     pr = props or {}
-    r.coolant = SymMat(heat_capacity=pr.get('cp') or env.pos(t + 'cp', hi=1e6),
-                       density=pr.get('rho') or env.pos(t + 'rho', hi=1e5),
-                       thermal_conductivity=pr.get('k') or env.pos(t + 'k_cool', hi=1e4),
-                       viscosity=pr.get('mu') or env.pos(t + 'mu', hi=10))
-    r.duct = SymMat(thermal_conductivity=pr.get('kw') or env.pos(t + 'k_duct', hi=1e4))
+    r.coolant = SymMat(heat_capacity=pr.get('cp') or env.pos(t + 'cp', hi=1e6, nominal=1275.0),
+                       density=pr.get('rho') or env.pos(t + 'rho', hi=1e5, nominal=850.0),
+                       thermal_conductivity=pr.get('k') or env.pos(t + 'k_cool', hi=1e4, nominal=75.0),
+                       viscosity=pr.get('mu') or env.pos(t + 'mu', hi=10, nominal=2.5e-4))
+    r.duct = SymMat(thermal_conductivity=pr.get('kw') or env.pos(t + 'k_duct', hi=1e4, nominal=25.0))
     env.stub('Material objects replaced by holders of arbitrary positive property values (update() is a no-op)')
     r.coolant_int_params = dict(b.coolant_int_params)
-    fs = [env.pos('%sfs%d' % (t, i), hi=100) for i in range(3)]
+    fs = [env.pos('%sfs%d' % (t, i), hi=100, nominal=[0.9, 1.1, 0.8][i]) for i in range(3)]
     r.coolant_int_params['fs'] = _arr(env, fs)
-    r.coolant_int_params['htc'] = _arr(env, [env.pos('%shtc%d' % (t, i), hi=1e8) for i in range(3)])
-    sw = env.nonneg(t + 'swirl', hi=1e3)
+    r.coolant_int_params['htc'] = _arr(env, [env.pos('%shtc%d' % (t, i), hi=1e8, nominal=8e4 + 1e4 * i) for i in range(3)])
+    sw = env.nonneg(t + 'swirl', hi=1e3, nominal=0.3)
     r.coolant_int_params['swirl'] = _arr(env, [0.0, sw, sw])
-    r.coolant_int_params['eddy'] = env.nonneg(t + 'eddy', hi=1e3)
+    r.coolant_int_params['eddy'] = env.nonneg(t + 'eddy', hi=1e3, nominal=2e-4)
     env.stub('correlated parameters (flow split, htc, eddy diffusivity, swirl velocity) are arbitrary values obeying '
              'fs, htc > 0; eddy, swirl >= 0; swirl[edge] = swirl[corner] (what C12 proves of the correlations)')
-    r._sf = env.pos(t + 'shape_factor', hi=100)
+    r._sf = env.pos(t + 'shape_factor', hi=100, nominal=1.2)
     r._conv_approx = conv_approx
     if nbyp:
         r.coolant_byp_params = dict(b.coolant_byp_params)
-        r.coolant_byp_params['htc'] = _arr2(env, [[env.pos('%shtc_byp%d_%d' % (t, i, k), hi=1e8) for k in range(2)]
+        r.coolant_byp_params['htc'] = _arr2(env, [[env.pos('%shtc_byp%d_%d' % (t, i, k), hi=1e8, nominal=3e4 + 1e3 * k) for k in range(2)]
                                                   for i in range(nbyp)])
     # ---- fields
     if fields:
